@@ -3,11 +3,12 @@
     sumbool, comparison -> OCaml natives); N, Z, positive, byte stay Coq
     datatypes.  No Extract Constant of ours. *)
 From Coq Require Import Extraction ExtrOcamlBasic.
-From Verif Require Import Bytes Crc32 Codec.
+From Verif Require Import Bytes Crc32 Codec Dec ListDS SetDS ZSetDS Index Engine.
 Extraction Language OCaml.
 Set Extraction KeepSingleton.
 Extraction "model.ml"
   Byte.to_N Byte.of_N
   encode_entry decode_at entry_size
   encode_rootidx decode_rootidx_at
-  encode_bucketmeta decode_bucketmeta.
+  encode_bucketmeta decode_bucketmeta
+  step empty_world do_open.
